@@ -259,7 +259,7 @@ def check(case, rec):
     rec.nontrivial(len(cont) >= 3 and len(fibers_at) >= 2 and noisy)
 
 
-PARTS = [Part("transform", cases(), check, n_quick=5000, n_thorough=10000)]
+PARTS = [Part("transform", cases(), check, n_quick=5000, n_thorough=30000)]
 
 
 def coverage_warnings(rec):
